@@ -602,3 +602,154 @@ Proof.
       * right. left. exact Ek.
       * left. apply in_or_app. right. exact Hin.
 Qed.
+
+(* ---- _do_hierarchy_raise --------------------------------------------------------------------------------------- *)
+Lemma nodup_split_unique : forall (w : positive) a1 b1 a2 b2,
+  NoDup (a1 ++ w :: b1) -> a1 ++ w :: b1 = a2 ++ w :: b2 -> a1 = a2 /\ b1 = b2.
+Proof.
+  induction a1 as [|x a1 IH]; intros b1 a2 b2 Hnd Heq; cbn in *.
+  - destruct a2 as [|y a2]; cbn in Heq; inversion Heq; subst; auto.
+    exfalso. inversion Hnd as [|? ? Hni Hnd2]; subst. apply Hni. apply in_or_app. right. left. reflexivity.
+  - destruct a2 as [|y a2]; cbn in Heq; inversion Heq as [[Ex Et]]; subst.
+    + exfalso. inversion Hnd as [|? ? Hni Hnd2]; subst. apply Hni. apply in_or_app. right. left. reflexivity.
+    + inversion Hnd as [|? ? Hni Hnd2]; subst. destruct (IH b1 a2 b2 Hnd2 Et) as [E1 E2]. subst. auto.
+Qed.
+
+Lemma raise_slot_spec : forall fuel p cp w l1 l2 s,
+  hoare_ro (fun h => findw h p = Some cp /\ chain h (w_first cp) (l1 ++ l2) /\ slot_at p l1 s /\
+                     (forall x cx, In x l1 -> findw h x = Some cx -> w_next cx <> Some w))
+           (raise_slot fuel s w)
+           (fun h s' => exists l1' l2', l1 ++ l2 = l1' ++ l2' /\ slot_at p l1' s' /\
+                          (forall x cx, In x l1' -> findw h x = Some cx -> w_next cx <> Some w) /\
+                          (l2' = [] \/ exists z cz rest, l2' = z :: rest /\ findw h z = Some cz /\ w_next cz = Some w)).
+Proof.
+  induction fuel as [|f IH]; intros p cp w l1 l2 s h [Hf [Hc [Hs Hn]]]; cbn; [exact I|].
+  destruct (slot_at_val h p cp l1 l2 s Hf Hc Hs) as [v [Hv Hcv]].
+  unfold bind at 1. rewrite (read_slot_run h s v Hv).
+  destruct v as [a|].
+  - inversion Hcv as [|a' ca l' Hfa Hca]; subst.
+    unfold bind at 1. rewrite (getw_run h a ca Hfa).
+    destruct (ptr_eqb (w_next ca) (Some w)) eqn:E.
+    + apply ptr_eqb_eq in E. cbn. split; auto. exists l1, (a :: l'). split; auto. split; auto. split; auto.
+      right. exists a, ca, l'. auto.
+    + apply ptr_eqb_neq in E.
+      specialize (IH p cp w (l1 ++ [a]) l' (SNext a) h).
+      assert (Hpre : findw h p = Some cp /\ chain h (w_first cp) ((l1 ++ [a]) ++ l') /\ slot_at p (l1 ++ [a]) (SNext a) /\
+                     (forall x cx, In x (l1 ++ [a]) -> findw h x = Some cx -> w_next cx <> Some w)).
+      { split; [exact Hf|]. split; [rewrite <- app_assoc; exact Hc|]. split; [right; exists l1, a; auto|].
+        intros x cx Hin Hfx. apply in_app_or in Hin. destruct Hin as [Hin|[Ex|[]]]; [eapply Hn; eauto|].
+        subst x. rewrite Hfa in Hfx. inversion Hfx; subst cx. exact E. }
+      specialize (IH Hpre). destruct (raise_slot f (SNext a) w h); auto.
+      destruct IH as [Eh [l1' [l2' [Heq Hrest]]]]. split; auto. exists l1', l2'. split; auto.
+      rewrite <- Heq. rewrite <- app_assoc. reflexivity.
+  - inversion Hcv; subst. cbn. split; auto. exists l1, []. split; auto.
+Qed.
+
+Lemma hraise_spec : forall D fuel p w cw qh h0,
+  hinv D (vq h0 qh) -> findw h0 w = Some cw -> w_parent cw = Some p ->
+  hoare (fun h => h = h0) (hraise fuel p w) (fun _ h' => restack_post D qh h0 h').
+Proof.
+  intros D fuel p w cw qh h0 HIv Hw Hwp h E. subst h.
+  destruct (restack_setting D qh h0 w cw p HIv Hw Hwp) as [cp [l1 [l3 [Hp [Hc [Hl Hpw]]]]]].
+  unfold hraise. unfold bind at 1. rewrite (getw_run h0 p cp Hp).
+  destruct (ptr_eqb (w_first cp) (Some w)) eqn:Efirst; [cbn; apply restack_refl; exact HIv|].
+  apply ptr_eqb_neq in Efirst.
+  (* w is not the first child: it has a predecessor z *)
+  destruct (exists_last (l := l1)) as [l0 [z El1]].
+  { intro El. subst l1. cbn in Hc. inversion Hc; subst. congruence. }
+  assert (Hnd : NoDup (l1 ++ w :: l3)) by (eapply chain_NoDup; eauto).
+  subst l1.
+  assert (Hc' : chain h0 (w_first cp) (l0 ++ z :: w :: l3)) by (rewrite <- app_assoc in Hc; exact Hc).
+  assert (Hnd' : NoDup (l0 ++ z :: w :: l3)) by (eapply chain_NoDup; eauto).
+  destruct (chain_seg_app h0 l0 _ _ Hc') as [e0 [Hseg0 Hcz]].
+  inversion Hcz as [|z' cz lz Hfz Hcw]; subst.
+  inversion Hcw as [|w' cw' lw Hfw Hc3]; subst. rewrite Hw in Hfw. inversion Hfw; subst cw'.
+  (* the search *)
+  unfold bind at 1.
+  pose proof (raise_slot_spec fuel p cp w [] (l0 ++ z :: w :: l3) (SFirst p) h0) as Hrs.
+  assert (Hpre : findw h0 p = Some cp /\ chain h0 (w_first cp) ([] ++ l0 ++ z :: w :: l3) /\ slot_at p [] (SFirst p) /\
+                 (forall x cx, In x [] -> findw h0 x = Some cx -> w_next cx <> Some w)).
+  { split; [exact Hp|]. split; [exact Hc'|]. split; [left; auto|]. intros x cx []. }
+  specialize (Hrs Hpre).
+  destruct (raise_slot fuel (SFirst p) w h0) as [s h1| |]; [|contradiction|exact I].
+  destruct Hrs as [Eh [l1' [l2' [Heq [Hs [Hnone Hfound]]]]]]. subst h1. cbn in Heq.
+  assert (El : l1' = l0).
+  { destruct Hfound as [E2|[z' [cz' [rest [E2 [Hfz' Hnz']]]]]]; subst l2'.
+    - exfalso. rewrite app_nil_r in Heq. apply (Hnone z cz); auto. rewrite <- Heq. apply in_or_app. right. left. reflexivity.
+    - rewrite Heq in Hc'. destruct (chain_app h0 _ l1' z' rest Hc') as [cz'' [Hfz'' Hcrest]].
+      rewrite Hfz' in Hfz''. inversion Hfz''; subst cz''. rewrite Hnz' in Hcrest.
+      inversion Hcrest as [|w' cw' rest' Hfw' Hcr']; subst.
+      assert (Heq' : (l0 ++ [z]) ++ w :: l3 = (l1' ++ [z']) ++ w :: rest') by (rewrite <- !app_assoc; exact Heq).
+      assert (Hnd'' : NoDup ((l0 ++ [z]) ++ w :: l3)) by (rewrite <- app_assoc; exact Hnd').
+      destruct (nodup_split_unique w _ _ _ _ Hnd'' Heq') as [E1 _].
+      apply app_inj_tail in E1. destruct E1; auto. }
+  subst l1'.
+  assert (Hv : slot_val h0 s = Some (Some z)).
+  { destruct (slot_at_val h0 p cp l0 (z :: w :: l3) s Hp Hc' Hs) as [v [Hv Hcv]]. inversion Hcv; subst. exact Hv. }
+  unfold bind at 1. rewrite (getw_run h0 w cw Hw).
+  unfold bind at 1. rewrite (read_slot_run h0 s (Some z) Hv).
+  (* the facts about positions *)
+  assert (Hzw : z <> w).
+  { intro Ez. subst z. apply NoDup_remove_2 in Hnd'. apply Hnd'. apply in_or_app. right. left. reflexivity. }
+  assert (Hw0 : ~ In w l0) by (intro Hin; apply (nodup_app_disj l0 (z :: w :: l3) w Hnd' Hin); right; left; reflexivity).
+  assert (Hz0 : ~ In z l0) by (intro Hin; apply (nodup_app_disj l0 (z :: w :: l3) z Hnd' Hin); left; reflexivity).
+  assert (Hw3 : ~ In w l3).
+  { pose proof (chain_NoDup h0 _ _ Hcw) as Hn. inversion Hn as [|? ? Hni Hn2]; subst. exact Hni. }
+  assert (Hz3 : ~ In z l3).
+  { pose proof (chain_NoDup h0 _ _ Hcz) as Hn. inversion Hn as [|? ? Hni Hn2]; subst. intro Hin. apply Hni. right. exact Hin. }
+  assert (Hpl : ~ In p (l0 ++ z :: w :: l3)).
+  { intro Hin. rewrite <- app_assoc in Hl. cbn in Hl. apply Hl in Hin. destruct Hin as [ck [G1 G2]].
+    pose proof (hi_parent_lt D (vq h0 qh) HIv p ck p G1 G2). lia. }
+  assert (Hpz : p <> z) by (intro Ep; subst z; apply Hpl; apply in_or_app; right; left; reflexivity).
+  (* step 1: w points to its old predecessor *)
+  unfold bind at 1. rewrite (upd_run h0 w _ cw Hw).
+  set (h1 := upd_cell h0 w (fun c => set_next c (Some z))).
+  assert (Hz1 : findw h1 z = Some cz) by (unfold h1; rewrite findw_upd_cell_other; auto).
+  unfold bind at 1. cbn [deref ret].
+  (* step 2: the old predecessor now points behind w *)
+  unfold bind at 1. rewrite (upd_run h1 z _ cz Hz1).
+  set (h2 := upd_cell h1 z (fun c => set_next c (w_next cw))).
+  assert (Hs2 : seg h2 (w_first cp) l0 (Some z)).
+  { apply seg_upd_next_notin; auto. apply seg_upd_next_notin; auto. }
+  assert (Hc32 : chain h2 (w_next cw) l3).
+  { apply chain_upd_next_notin; auto. apply chain_upd_next_notin; auto. }
+  assert (Hp2 : findw h2 p = Some cp).
+  { unfold h2. rewrite findw_upd_cell_other; auto. unfold h1. rewrite findw_upd_cell_other; auto. }
+  assert (Hw2 : findw h2 w = Some (set_next cw (Some z))).
+  { unfold h2. rewrite findw_upd_cell_other; auto. unfold h1. rewrite findw_upd_cell_same. rewrite Hw. reflexivity. }
+  assert (Hz2 : findw h2 z = Some (set_next cz (w_next cw))).
+  { unfold h2. rewrite findw_upd_cell_same. rewrite Hz1. reflexivity. }
+  (* step 3: the slot in front now holds w *)
+  assert (Hv2 : exists v, slot_val h2 s = Some v).
+  { destruct Hs as [[E1 E2]|[l00 [z0 [E1 E2]]]]; subst s; cbn.
+    - rewrite Hp2. cbn. eauto.
+    - assert (Hinz : In z0 l0) by (subst l0; apply in_or_app; right; left; reflexivity).
+      pose proof (seg_live h2 _ _ _ Hs2 z0 Hinz) as Hlz. destruct (findw h2 z0); [cbn; eauto|congruence]. }
+  destruct Hv2 as [v2 Hv2].
+  rewrite (write_slot_run h2 s (Some w) v2 Hv2).
+  set (h3 := slot_upd h2 s (Some w)).
+  assert (Hnd0 : NoDup l0) by (eapply nodup_app_l; exact Hnd').
+  assert (Hpl0 : ~ In p l0) by (intro Hin; apply Hpl; apply in_or_app; left; exact Hin).
+  destruct (seg_slot_upd h2 p cp l0 s (Some z) (Some w) Hp2 Hs2 Hs Hnd0 Hpl0) as [cp3 [Hp3 Hs3]]. fold h3 in Hp3, Hs3.
+  assert (Hown : slot_owner s <> w /\ slot_owner s <> z /\ (forall z', s = SNext z' -> ~ In z' l3)).
+  { destruct Hs as [[E1 E2]|[l00 [z0 [E1 E2]]]]; subst s; cbn.
+    - split; [congruence|]. split; [exact Hpz|intros z' Ez; discriminate].
+    - assert (Hinz : In z0 l0) by (subst l0; apply in_or_app; right; left; reflexivity).
+      split; [intro Ez; subst z0; contradiction|]. split; [intro Ez; subst z0; contradiction|].
+      intros z' Ez'. inversion Ez'; subst z'. intro Hin3.
+      apply (nodup_app_disj l0 (z :: w :: l3) z0 Hnd' Hinz). right. right. exact Hin3. }
+  destruct Hown as [Hown_w [Hown_z Hown3]].
+  assert (Hw3' : findw h3 w = Some (set_next cw (Some z))) by (unfold h3; rewrite slot_upd_other; auto).
+  assert (Hz3' : findw h3 z = Some (set_next cz (w_next cw))) by (unfold h3; rewrite slot_upd_other; auto).
+  assert (Hc33 : chain h3 (w_next cw) l3) by (apply chain_slot_upd_notin; auto).
+  assert (Hcfin : chain h3 (w_first cp3) (l0 ++ w :: z :: l3)).
+  { eapply seg_chain_app; [exact Hs3|]. econstructor; [exact Hw3'|]. cbn. econstructor; [exact Hz3'|]. cbn. exact Hc33. }
+  assert (Hsub0 : forall x, In x l0 -> In x ((l0 ++ [z]) ++ w :: l3)).
+  { intros x Hx. rewrite <- app_assoc. apply in_or_app. left. exact Hx. }
+  eapply (restack_finish D qh p ((l0 ++ [z]) ++ w :: l3) (l0 ++ w :: z :: l3) h0 h3 cp cp3); eauto.
+  - eapply relinked_trans; [apply relinked_set_next; apply in_or_app; right; left; reflexivity|].
+    eapply relinked_trans; [apply relinked_set_next; rewrite <- app_assoc; apply in_or_app; right; left; reflexivity|].
+    apply (relinked_slot_upd p _ l0 s h2 (Some w) Hs Hsub0).
+  - intro k. rewrite <- app_assoc. cbn.
+    split; intro Hin; apply in_app_or in Hin; apply in_or_app; destruct Hin as [Hin|[Hin|[Hin|Hin]]]; auto; right; cbn; auto.
+Qed.
